@@ -11,7 +11,7 @@ use crate::unit::{gen_indices, gen_ranges, VERSIONS};
 use arrow_array::{ArrayRef, RecordBatch, UInt32Array, UInt64Array};
 use arrow_schema::{Field, Schema};
 use futures::TryStreamExt;
-use hxlib::util::{catch, Args, Rng, Sink};
+use hxlib::util::{Args, Rng, Sink};
 use lance_encoding::decoder::FilterExpression;
 use lance_encoding::version::LanceFileVersion;
 use lance_file::reader::{FileReader, ReaderProjection};
@@ -125,7 +125,21 @@ fn rows_of_ranges(rs: &[Range<u64>]) -> Vec<u64> {
     rs.iter().flat_map(|r| r.start..r.end).collect()
 }
 
+/// Err(one line per failing read); a failing write / open is a single line starting with WRITE / OPEN.
 pub async fn roundtrip(case: &Case, seed: u64) -> Result<(), String> {
+    let mut bad: Vec<String> = vec![];
+    let r = roundtrip_inner(case, seed, &mut bad).await;
+    if let Err(e) = r {
+        bad.push(e);
+    }
+    if bad.is_empty() {
+        Ok(())
+    } else {
+        Err(bad.join(" ;; "))
+    }
+}
+
+async fn roundtrip_inner(case: &Case, seed: u64, bad: &mut Vec<String>) -> Result<(), String> {
     let mut rng = Rng::new(seed);
     let opts = FileWriterOptions { format_version: Some(case.version), data_cache_bytes: case.opts_cache, max_page_bytes: case.opts_maxp, keep_original_array: case.keep, ..Default::default() };
     let w = write_file(&case.schema, &case.batches, opts).await.map_err(|e| format!("WRITE {e}"))?;
@@ -133,42 +147,46 @@ pub async fn roundtrip(case: &Case, seed: u64) -> Result<(), String> {
     if w.rows_returned != total {
         return Err(format!("finish() returned {} rows, {} written", w.rows_returned, total));
     }
-    let reader = if rng.bool() { open_real(&w, Some(*rng.pick(&[64u64, 1000, 8 << 20]))).await? } else { open_rec(&w).await?.0 };
+    let real_io = rng.bool();
+    let reader = if real_io { open_real(&w, Some(*rng.pick(&[64u64, 1000, 8 << 20]))).await.map_err(|e| format!("OPEN {e}"))? } else { open_rec(&w).await.map_err(|e| format!("OPEN {e}"))?.0 };
+    let io = if real_io { "real-io" } else { "mem-io" };
     if reader.num_rows() != total {
         return Err(format!("num_rows() = {} but {} rows were written", reader.num_rows(), total));
     }
     let file_schema = Schema::from(reader.schema().as_ref());
-    if file_schema.fields().len() != case.schema.fields().len() || file_schema.fields().iter().zip(case.schema.fields().iter()).any(|(a, b)| a.name() != b.name() || a.data_type() != b.data_type() || a.is_nullable() != b.is_nullable()) {
+    if file_schema.fields().len() != case.schema.fields().len() || file_schema.fields().iter().zip(case.schema.fields().iter()).any(|(a, b)| !field_equiv(a, b)) {
         return Err(format!("schema read back differs: {:?} vs {:?}", file_schema, case.schema));
     }
-    // page lengths of every column sum to the row count
-    for (ci, col) in reader.metadata().column_infos.iter().enumerate() {
-        let s: u64 = col.page_infos.iter().map(|p| p.num_rows).sum();
-        if s != total && !col.page_infos.is_empty() {
-            return Err(format!("file column {ci}: page lengths sum to {s}, {total} rows written"));
+    // page lengths of every top-level leaf column sum to the row count (columns below a list count items)
+    if case.schema.fields().iter().all(|f| !f.data_type().is_nested()) {
+        for (ci, col) in reader.metadata().column_infos.iter().enumerate() {
+            let s: u64 = col.page_infos.iter().map(|p| p.num_rows).sum();
+            if s != total {
+                return Err(format!("file column {ci}: page lengths sum to {s}, {total} rows written"));
+            }
         }
     }
     let all_cols: Vec<usize> = (0..case.schema.fields().len()).collect();
     let all_rows: Vec<u64> = (0..total).collect();
     let bss = [1u32, 2, 3, 7, 16, 100, 1024, 100_000];
     // full read
-    read_and_compare(&reader, case, &all_cols, None, ReadBatchParams::RangeFull, &all_rows, *rng.pick(&bss), "full").await?;
+    if let Err(e) = read_and_compare(&reader, case, &all_cols, None, ReadBatchParams::RangeFull, &all_rows, *rng.pick(&bss), "full").await { bad.push(format!("[{io}] {e}")); }
     if total == 0 {
         return Ok(());
     }
-    read_and_compare(&reader, case, &all_cols, None, ReadBatchParams::RangeFull, &all_rows, *rng.pick(&bss[..4]), "full(small batches)").await?;
+    if let Err(e) = read_and_compare(&reader, case, &all_cols, None, ReadBatchParams::RangeFull, &all_rows, *rng.pick(&bss[..4]), "full(small batches)").await { bad.push(format!("[{io}] {e}")); }
     // one range
     let a = rng.below(total);
     let b = a + 1 + rng.below(total - a);
-    read_and_compare(&reader, case, &all_cols, None, ReadBatchParams::Range(a as usize..b as usize), &(a..b).collect::<Vec<_>>(), *rng.pick(&bss), &format!("range {a}..{b}")).await?;
+    if let Err(e) = read_and_compare(&reader, case, &all_cols, None, ReadBatchParams::Range(a as usize..b as usize), &(a..b).collect::<Vec<_>>(), *rng.pick(&bss), &format!("range {a}..{b}")).await { bad.push(format!("[{io}] {e}")); }
     // several ranges
     let rs = gen_ranges(&mut rng, total, false);
     if rs.iter().any(|r| r.end > r.start) {
-        read_and_compare(&reader, case, &all_cols, None, ReadBatchParams::Ranges(rs.clone().into()), &rows_of_ranges(&rs), *rng.pick(&bss), &format!("ranges {rs:?}")).await?;
+        if let Err(e) = read_and_compare(&reader, case, &all_cols, None, ReadBatchParams::Ranges(rs.clone().into()), &rows_of_ranges(&rs), *rng.pick(&bss), &format!("ranges {rs:?}")).await { bad.push(format!("[{io}] {e}")); }
     }
     // sorted indices
     let idx = gen_indices(&mut rng, total, false);
-    read_and_compare(&reader, case, &all_cols, None, ReadBatchParams::Indices(UInt32Array::from(idx.iter().map(|i| *i as u32).collect::<Vec<_>>())), &idx, *rng.pick(&bss), &format!("indices {idx:?}")).await?;
+    if let Err(e) = read_and_compare(&reader, case, &all_cols, None, ReadBatchParams::Indices(UInt32Array::from(idx.iter().map(|i| *i as u32).collect::<Vec<_>>())), &idx, *rng.pick(&bss), &format!("indices {idx:?}")).await { bad.push(format!("[{io}] {e}")); }
     // projection: a subset of the top-level columns in another order
     if all_cols.len() > 1 {
         let mut sel: Vec<usize> = all_cols.iter().copied().filter(|_| rng.bool()).collect();
@@ -183,15 +201,31 @@ pub async fn roundtrip(case: &Case, seed: u64) -> Result<(), String> {
         let proj = ReaderProjection::from_column_names(case.version, reader.schema(), &names_ref).map_err(|e| format!("projection {names:?}: {e}"))?;
         let rs = gen_ranges(&mut rng, total, false);
         if rs.iter().any(|r| r.end > r.start) {
-            read_and_compare(&reader, case, &sel, Some(proj.clone()), ReadBatchParams::Ranges(rs.clone().into()), &rows_of_ranges(&rs), *rng.pick(&bss), &format!("projection {names:?} ranges {rs:?}")).await?;
+            if let Err(e) = read_and_compare(&reader, case, &sel, Some(proj.clone()), ReadBatchParams::Ranges(rs.clone().into()), &rows_of_ranges(&rs), *rng.pick(&bss), &format!("projection {names:?} ranges {rs:?}")).await { bad.push(format!("[{io}] {e}")); }
         }
-        read_and_compare(&reader, case, &sel, Some(proj), ReadBatchParams::RangeFull, &all_rows, *rng.pick(&bss), &format!("projection {names:?} full")).await?;
+        if let Err(e) = read_and_compare(&reader, case, &sel, Some(proj), ReadBatchParams::RangeFull, &all_rows, *rng.pick(&bss), &format!("projection {names:?} full")).await { bad.push(format!("[{io}] {e}")); }
     }
     Ok(())
 }
 
-pub fn run_case(rt: &tokio::runtime::Runtime, case: &Case, seed: u64) -> Result<Result<(), String>, bool> {
-    catch(|| {
+/// names, types and nullability of a field and of everything below it.  The item field of a
+/// fixed-size list is not a Lance field (the type is stored as "fixed_size_list:<type>:<dim>"): its name
+/// and nullability are not part of the file schema.
+pub fn field_equiv(a: &Field, b: &Field) -> bool {
+    a.name() == b.name() && a.is_nullable() == b.is_nullable() && type_equiv(a.data_type(), b.data_type())
+}
+fn type_equiv(a: &arrow_schema::DataType, b: &arrow_schema::DataType) -> bool {
+    use arrow_schema::DataType::*;
+    match (a, b) {
+        (Struct(x), Struct(y)) => x.len() == y.len() && x.iter().zip(y.iter()).all(|(p, q)| field_equiv(p, q)),
+        (List(x), List(y)) | (LargeList(x), LargeList(y)) => field_equiv(x, y),
+        (FixedSizeList(x, d), FixedSizeList(y, e)) => d == e && type_equiv(x.data_type(), y.data_type()),
+        _ => a == b,
+    }
+}
+
+pub fn run_case(rt: &tokio::runtime::Runtime, case: &Case, seed: u64) -> (Result<Result<(), String>, String>, Vec<String>) {
+    catch_msg(|| {
         rt.block_on(async {
             match tokio::time::timeout(std::time::Duration::from_secs(120), roundtrip(case, seed)).await {
                 Ok(r) => r,
@@ -204,12 +238,16 @@ pub fn run_case(rt: &tokio::runtime::Runtime, case: &Case, seed: u64) -> Result<
 pub fn run(args: &Args, sink: &mut Sink, rng: &mut Rng) {
     let rt = runtime();
     let n = args.vol(90, 1500);
+    let only: Option<usize> = args.rest.iter().position(|a| a == "--case").and_then(|p| args.rest.get(p + 1)).and_then(|v| v.parse().ok());
     for i in 0..n {
         let mut crng = rng.fork();
+        if only.is_some() && only != Some(i) {
+            continue;
+        }
         let case = gen_case(&mut crng, i, args.thorough());
         let seed = crng.next();
         let feats = Features::of(&case);
-        let r = run_case(&rt, &case, seed);
+        let (r, panics) = run_case(&rt, &case, seed);
         sink.count(&format!("e2e:{}:{:?}", case.version, case.flavor));
         let key = format!("{:?}", case.describe());
         sink.nontrivial(&key);
@@ -223,9 +261,15 @@ pub fn run(args: &Args, sink: &mut Sink, rng: &mut Rng) {
                 sink.count(&format!("e2e:rejected:{}", e.chars().take(60).collect::<String>()));
                 continue;
             }
-            Ok(Err(e)) => e.clone(),
-            Err(_) => "panic".to_string(),
+            Ok(Err(e)) => format!("{e} {}", panics.join(" | ")),
+            Err(p) => format!("PANIC {p} [{}]", panics.join(" | ")),
         };
+        if only.is_some() {
+            eprintln!("case {i}: {}\n{}", msg, serde_json::to_string_pretty(&case.describe()).unwrap());
+            for (ci, f) in case.schema.fields().iter().enumerate() {
+                eprintln!("column {} = {:?}", f.name(), case.column(ci));
+            }
+        }
         let class = classify(&feats, &msg);
         if let Some(c) = class {
             sink.count(&format!("e2e:known:{c}"));
